@@ -423,6 +423,8 @@ def run_impl(case):
             x, r = q[1], q[2]
             if any(a['rel'] == r and a['src'] == rel.kind[x] for a in schema['assocs']):
                 continue      # x is itself on the referring (subtype / link class) side: outside the statement
+            if any(a['rel'] == r and (a['sphrase'] or a['tphrase']) for a in schema['assocs']):
+                continue      # an association with phrases is not a subtype/supertype association (navigate_subtype's precondition)
             subs = []
             for ai, a in enumerate(schema['assocs']):
                 if a['rel'] == r and a['tgt'] == rel.kind[x] and a['tphrase'] == '':
